@@ -13,6 +13,7 @@ import (
 	"sort"
 	"strings"
 	"sync"
+	"time"
 
 	"bounded/report"
 
@@ -92,14 +93,29 @@ func Run(prop, tier string, seed int64) (*report.Report, error) {
 
 // guard runs f and converts a panic into (true, text).
 func guard(f func()) (panicked bool, msg string) {
-	defer func() {
-		if r := recover(); r != nil {
-			panicked = true
-			msg = fmt.Sprint(r)
-		}
+	// the call runs in its own goroutine under a time limit: an API call that
+	// never returns is reported (as a failure of the call) instead of
+	// hanging the harness; the abandoned goroutine dies with the process
+	type res struct {
+		p   bool
+		msg string
+	}
+	ch := make(chan res, 1)
+	go func() {
+		defer func() {
+			if r := recover(); r != nil {
+				ch <- res{true, fmt.Sprint(r)}
+			}
+		}()
+		f()
+		ch <- res{}
 	}()
-	f()
-	return
+	select {
+	case r := <-ch:
+		return r.p, r.msg
+	case <-time.After(10 * time.Second):
+		return true, "no result after 10s (the call does not terminate)"
+	}
 }
 
 // outcome of one API call: a value, a returned error, or an escaped panic.
